@@ -16,7 +16,8 @@ ASYNCIO_POPULATIONS = ["none", "sleeper", "sleeper+sync", "spinner+sync", "sleep
                        "child-of-trio", "late", "stubborn"]
 TRIO_POPULATIONS = ["none", "sleeper", "sleeper+sync", "shield0.5", "shield5", "spinner+sync",
                     "sleeper+spinner", "child-of-asyncio", "late"]
-TRIGGERS = ["fail:asyncio", "fail:trio", "fail:threading", "sigint", "shutdown", "stop"]
+TRIGGERS = ["fail:asyncio", "fail:trio", "fail:threading", "sigint", "shutdown", "stop",
+            "ki:asyncio", "ki:trio", "ki:threading"]
 
 
 def population(flavour, kind):
@@ -78,6 +79,10 @@ class Scenario:
         if trigger.startswith("fail:"):
             kit.submit({"id": "f0", "flavour": trigger[5:],
                         "steps": [("sleep", 1.0), ("raise", "LookupError")]})
+        if trigger.startswith("ki:"):
+            # a payload raises KeyboardInterrupt itself
+            kit.submit({"id": "f0", "flavour": trigger[3:],
+                        "steps": [("sleep", 1.0), ("raise", "KeyboardInterrupt")]})
         late = late_a + late_t
 
         def outside():
@@ -127,7 +132,7 @@ class Scenario:
                 events.setdefault(ident, []).append((seq, now, event, data))
         for ident in events:
             flavour_of[ident] = ident.split("-")[0] if not ident.startswith("f0") else \
-                trigger[5:]
+                trigger.split(":")[1]
         if ex.deadlock:
             violations.append(("%s:deadlock" % trigger, "deadlock: %r" % (ex.deadlock_info,)))
         elif end_seq is None:
@@ -180,6 +185,10 @@ def scenario_params(tier):
     for index, (pop_a, pop_t, trigger) in enumerate(itertools.product(
             ASYNCIO_POPULATIONS, TRIO_POPULATIONS, TRIGGERS)):
         if pop_a == "none" and pop_t == "none":
+            continue
+        if trigger.startswith("ki:") and tier == "quick" and not (
+                pop_a in ("none", "sleeper+sync") and pop_t in ("sleeper+sync", "shield0.5",
+                                                                "shield5")):
             continue
         if trigger == "stop" and ("late" in (pop_a, pop_t)):
             # a bare MetaRunner has no documented behaviour for adopt racing stop()
